@@ -73,3 +73,39 @@ package sql
 //@   modifies nothing
 //@ iface (ISelect).Distinct(distinct)
 //@   modifies nothing
+
+// ---------------------------------------------------------------- string literals (C10)
+
+// The single escaping routine for string literals: backslash first (so that the
+// backslashes it adds afterwards are not escaped again), then NUL, newline,
+// carriage return, backspace, tab, ^Z and the single quote, each replaced at
+// every occurrence, and the result wrapped in single quotes. That this makes
+// every byte string one ClickHouse string literal that decodes to itself is by
+// reading ClickHouse's lexer; which pipeline is applied, in which order, and
+// that every occurrence is replaced, is checked here.
+//@ spec fn esc1(v string) string = replaceAll(v, "\\", "\\\\")
+//@ spec fn esc2(v string) string = replaceAll(esc1(v), "\000", "\\0")
+//@ spec fn esc3(v string) string = replaceAll(esc2(v), "\n", "\\n")
+//@ spec fn esc4(v string) string = replaceAll(esc3(v), "\r", "\\r")
+//@ spec fn esc5(v string) string = replaceAll(esc4(v), "\b", "\\b")
+//@ spec fn esc6(v string) string = replaceAll(esc5(v), "\t", "\\t")
+//@ spec fn esc7(v string) string = replaceAll(esc6(v), "\x1a", "\\x1a")
+//@ spec fn sqlEsc(v string) string = replaceAll(esc7(v), "'", "\\'")
+//@ func (*StringVal).String [C10]
+//@   modifies nothing
+//@   ensures result1 == nil
+//@   ensures quoted-escaped: result0 == "'" + sqlEsc(s.val) + "'"
+//@   loop 1:
+//@     invariant len(find) == 8 && len(replace) == 8 && rangeindex >= -1 && rangeindex <= 7
+//@     invariant find[0] == "\\" && find[1] == "\000" && find[2] == "\n" && find[3] == "\r" && find[4] == "\b" && find[5] == "\t" && find[6] == "\x1a" && find[7] == "'"
+//@     invariant replace[0] == "\\\\" && replace[1] == "\\0" && replace[2] == "\\n" && replace[3] == "\\r" && replace[4] == "\\b" && replace[5] == "\\t" && replace[6] == "\\x1a" && replace[7] == "\\'"
+//@     invariant (rangeindex == -1 ==> res == s.val) && (rangeindex == 0 ==> res == esc1(s.val)) && (rangeindex == 1 ==> res == esc2(s.val)) && (rangeindex == 2 ==> res == esc3(s.val)) && (rangeindex == 3 ==> res == esc4(s.val))
+//@     invariant (rangeindex == 4 ==> res == esc5(s.val)) && (rangeindex == 5 ==> res == esc6(s.val)) && (rangeindex == 6 ==> res == esc7(s.val)) && (rangeindex == 7 ==> res == sqlEsc(s.val))
+//@     modifies nothing
+
+// Rendering any SQL object has no side effects on the tree; a string value
+// renders as its escaped literal ((*StringVal).String above implements this
+// interface method; the two contracts state the same text for a *StringVal).
+//@ iface (SQLObject).String(ctx, options)
+//@   modifies nothing
+//@   ensures typeis(recv, "*StringVal") ==> result1 == nil && result0 == "'" + sqlEsc(unbox(recv, "*StringVal").val) + "'"
